@@ -36,11 +36,11 @@ theorem bytesioWin_eq_partial (data : List Nat) (off len : Option Int) (hneg : w
     (hbey : len = none → winBeyond (fromBytes data).length off = false) :
     bytesioWin data off len = windowSpec (fromBytes data) off len := bytesioWin_eq_partial_aux data off len hneg hbey
 
-/-- Files (by name or handle): right for a non-empty file and a non-negative offset, except a zero length at an
+/-- Files (by name or handle, empty files included): right for a non-negative offset, except a zero length at an
     offset past the end. Negative lengths ARE refused here. -/
-theorem fileWin_eq_partial (data : List Nat) (off len : Option Int) (hne : data ≠ [])
+theorem fileWin_eq_partial (data : List Nat) (off len : Option Int)
     (hoff : 0 ≤ off.getD 0) (hbey : winBeyond (fromBytes data).length off = false ∨ len ≠ some 0) :
-    fileWin data off len = windowSpec (fromBytes data) off len := fileWin_eq_partial_aux data off len hne hoff hbey
+    fileWin data off len = windowSpec (fromBytes data) off len := fileWin_eq_partial_aux data off len hoff hbey
 
 /-! ### known deviations of the pinned tree (decided witnesses; the regions are the hypotheses dropped above) -/
 
@@ -62,16 +62,13 @@ theorem window_negative_deviates :
     windowSpec (fromBytes [0xf0, 0x0f]) (some (-3)) none = .error .value ∧
     windowSpec [true, false, true, true] none (some (-1)) = .error .value := by decide
 
-/-- `file_empty`: an empty file cannot be opened at all, although offset 0 / length 0 is in range. -/
-theorem file_empty_deviates :
-    fileWin [] none none = .error .value ∧ windowSpec (fromBytes []) none none = .ok [] := by decide
-
 /-! ### non-vacuity -/
 
 example : winNegative (some 3) (some 7) = false ∧ winBeyond (fromBytes [1, 2]).length (some 3) = false ∧
     bytesioWin [0xa5, 0x3c] (some 3) (some 7) = .ok [false, false, true, false, true, false, false] ∧
     windowSpec (fromBytes [0xa5, 0x3c]) (some 3) (some 7) = .ok [false, false, true, false, true, false, false] ∧
     bytesioWin [0xa5, 0x3c] (some 3) (some 14) = .error .value ∧
-    fileWin [0xa5, 0x3c] (some 9) none = .ok [false, true, true, true, true, false, false] := by decide
+    fileWin [0xa5, 0x3c] (some 9) none = .ok [false, true, true, true, true, false, false] ∧
+    fileWin [] none none = .ok [] ∧ fileWin [] (some 1) none = .error .value := by decide
 
 end BM.C15
